@@ -109,17 +109,46 @@ Section Whole.
       + eapply opt_entry_gq; eauto.
   Qed.
 
+  (** after a completed run of measurements and probes every probed clamp sits - no hypothesis on the
+      rollback test is needed (nothing is ever "kept" here) *)
+  Lemma run_probes_establish (g : grid) : forall evs (st : state) tr (fin : state),
+    forallb no_opt evs = true -> wf g (length (pts st)) ->
+    run_events leb g st evs = (tr, fin) -> completed tr = true ->
+    forall cid, In cid (ev_cids evs) -> sits g fin cid.
+  Proof.
+    induction evs as [|e r IH]; intros st tr fin Hn Hwf H C cid Hin; simpl in H.
+    - destruct Hin.
+    - simpl in Hn. apply andb_true_iff in Hn. destruct Hn as [He Hn].
+      destruct (step leb g st e) as [st1 oc] eqn:Hs. destruct (is_raised oc) eqn:Hr.
+      + inversion H; subst. rewrite completed_cons in C. simpl in C. rewrite Hr in C. discriminate.
+      + destruct (run_events leb g st1 r) as [tr1 fin1] eqn:Hre. inversion H; subst.
+        rewrite completed_cons in C. simpl in C. rewrite Hr in C. simpl in C.
+        pose proof (step_length _ _ _ _ _ _ _ _ _ Hs) as [Lp _].
+        assert (Hwf1 : wf g (length (pts st1))) by (rewrite Lp; exact Hwf).
+        unfold ev_cids in Hin. simpl in Hin. apply in_app_or in Hin. destruct Hin as [Hin|Hin].
+        * destruct (ev_cid e) as [c0|] eqn:Hc; [|destruct Hin]. destruct Hin as [->|[]].
+          eapply (run_events_sits _ _ _ leb g cid r st1); [exact Hwf1 | exact Hre |].
+          apply (step_establishes _ _ _ leb g st e st1 oc cid Hwf Hs Hc Hr).
+          intros q0 q1 E. subst oc. destruct e as [|c1 ev|c1 o]; simpl in *; try discriminate.
+          apply probe_spec_ok in Hs. inversion Hs; subst. destruct H3; discriminate.
+        * eapply (IH st1); eauto.
+  Qed.
+
+  (** the order of the statement may differ from the code's rollback test (see [keeps_no_worse]) *)
+  Variable le : V -> V -> bool.
+
   (** optimize() with at least one iteration, from any entry state *)
-  Theorem optimize_any_entry (g : grid) : total leb -> transitive leb ->
+  Theorem optimize_any_entry_gen (g : grid) : reflexive_le le -> transitive_le le -> keeps_no_worse leb le ->
     forall probes order rest (st : state) mesh tr (fin : state) mesh',
       wf g (length (pts st)) -> length probes = length (g_clamps g) ->
       optimize leb g st mesh ((probes, order) :: rest) = (tr, fin, mesh') -> completed tr = true ->
       exists tr0 (snap : state) q_s q',
         run_events leb g st (EMeasure :: probe_events probes) = (tr0, snap) /\ completed tr0 = true /\
         prm snap = prm st /\ inv g snap /\
-        g_gq g (pts snap) = Some q_s /\ mesh' = pts fin /\ g_gq g mesh' = Some q' /\ leb q' q_s = true.
+        g_gq g (pts snap) = Some q_s /\ mesh' = pts fin /\ inv g fin /\
+        g_gq g mesh' = Some q' /\ le q' q_s = true.
   Proof.
-    intros T Tr probes order rest st mesh tr fin mesh' Hwf Hlen H C.
+    intros T Tr K probes order rest st mesh tr fin mesh' Hwf Hlen H C.
     unfold optimize in H.
     assert (E : optimize_events ((probes, order) :: rest)
                 = (EMeasure :: probe_events probes) ++ ((opt_events order ++ [EMeasure]) ++ optimize_events rest)).
@@ -134,8 +163,11 @@ Section Whole.
     rewrite completed_app, C0 in C. simpl in C. rewrite completed_app, C0, C. simpl.
     pose proof (run_events_length _ _ _ _ _ _ _ _ _ HA) as [Lp _].
     assert (Hwf' : wf g (length (pts snap))) by (rewrite Lp; exact Hwf).
+    assert (Hno : forallb no_opt (EMeasure :: probe_events probes) = true).
+    { simpl. unfold probe_events. rewrite forallb_forall. intros e He. apply in_map_iff in He.
+      destruct He as [ce [<- _]]. reflexivity. }
     assert (I : inv g snap).
-    { intros cid Hc. apply (run_events_establishes _ _ _ _ g T (EMeasure :: probe_events probes) st tr0 snap Hwf HA C0).
+    { intros cid Hc. apply (run_probes_establish g (EMeasure :: probe_events probes) st tr0 snap Hno Hwf HA C0).
       change (In cid (ev_cids (probe_events probes))).
       rewrite ev_cids_probe_events. apply in_seq. lia. }
     assert (Hq : exists q, g_gq g (pts snap) = Some q).
@@ -144,14 +176,27 @@ Section Whole.
       - exact (run_events_entry_gq g (EOpt (fst co) (snd co)) ((opt_events order' ++ [EMeasure]) ++ optimize_events rest)
                  snap tr2 fin (or_introl eq_refl) HB C). }
     destruct Hq as [q_s Hqs].
-    destruct (run_events_no_worse _ _ _ _ g T Tr _ _ _ _ _ Hwf' I HB C Hqs) as (q' & Hq' & L).
+    destruct (run_events_no_worse_gen _ _ _ leb le g T Tr K _ _ _ _ _ Hwf' I HB C Hqs) as (q' & Hq' & L).
     exists tr0, snap, q_s, q'. repeat split; auto.
-    eapply run_events_probe_prm; eauto.
-    simpl. unfold probe_events. rewrite forallb_forall. intros e He. apply in_map_iff in He.
-    destruct He as [ce [<- _]]. reflexivity.
+    - eapply run_events_probe_prm; eauto.
+    - eapply run_events_inv; eauto.
   Qed.
 
 End Whole.
+
+(** the code's own test as the order *)
+Theorem optimize_any_entry (X P V : Type) (leb : V -> V -> bool) (g : grid X P V) : total leb -> transitive leb ->
+  forall probes order rest (st : state X P) mesh tr (fin : state X P) mesh',
+    wf g (length (pts st)) -> length probes = length (g_clamps g) ->
+    optimize leb g st mesh ((probes, order) :: rest) = (tr, fin, mesh') -> completed tr = true ->
+    exists tr0 (snap : state X P) q_s q',
+      run_events leb g st (EMeasure :: probe_events X probes) = (tr0, snap) /\ completed tr0 = true /\
+      prm snap = prm st /\ inv g snap /\
+      g_gq g (pts snap) = Some q_s /\ mesh' = pts fin /\ inv g fin /\
+      g_gq g mesh' = Some q' /\ leb q' q_s = true.
+Proof.
+  intros T Tr. apply (optimize_any_entry_gen X P V leb leb g (total_refl V leb T) Tr (total_keeps V leb T)).
+Qed.
 
 Arguments probe_events {X}.
 Arguments opt_events {X}.
